@@ -150,7 +150,10 @@ Plan genBuild(const std::string& prop, int tier, uint64_t batchSeed, uint64_t id
                 break;
         }
         int64_t n;
-        if (c == wire::K_CAN || c == wire::K_CANFD)
+        static const int64_t pow2ish[] = {15, 16, 17, 31, 32, 33, 63, 64, 65, 127, 128, 129, 254, 255, 256, 257, 511, 512, 513, 1023, 1024, 1025, 4095, 4096, 4097, 16383, 16384, 32767, 32768, 32769, 65519, 65529};
+        if (r.chance(1, 8))
+            n = std::min<int64_t>(hi, pow2ish[r.below(sizeof pow2ish / sizeof pow2ish[0])]);
+        else if (c == wire::K_CAN || c == wire::K_CANFD)
             n = r.chance(1, 2) ? r.pick<int64_t>({0, 1, 2, 3, 4, 5, 6, 7, 8, 12, 16, 20, 24, 32, 48, 64}) : r.range(0, 255);
         else if (hi > 1000)
             n = r.chance(1, 8) ? r.logRange(0, hi) : (r.chance(1, 30) ? hi - r.range(0, 2) : r.range(0, 200));
@@ -171,11 +174,11 @@ Plan genBuild(const std::string& prop, int tier, uint64_t batchSeed, uint64_t id
         {
             static const char* keys[4] = {"s0", "s1", "s2", "s3"};
             for (int i = 0; i < 4; ++i)
-                op.set(keys[i], r.chance(1, 5) ? 0 : (r.chance(1, 10) ? r.range(0, 1000) : r.range(0, 24)));
-            op.set("v", r.chance(1, 3) ? 0 : (r.chance(1, 10) ? r.range(0, 2000) : r.range(0, 30)));
+                op.set(keys[i], r.chance(1, 5) ? 0 : (r.chance(1, 10) ? r.range(0, 1000) : (r.chance(1, 10) ? r.pick<int64_t>({126, 127, 128, 253, 254, 255, 256, 257, 510, 511, 512}) : r.range(0, 24))));
+            op.set("v", r.chance(1, 3) ? 0 : (r.chance(1, 10) ? r.range(0, 2000) : (r.chance(1, 10) ? r.pick<int64_t>({127, 128, 255, 256, 257, 1023, 1024}) : r.range(0, 30))));
         }
         if (c == wire::K_IFSTAT)
-            op.set("v", r.chance(1, 3) ? 0 : (r.chance(1, 10) ? r.range(0, 600) : r.range(0, 30)));
+            op.set("v", r.chance(1, 3) ? 0 : (r.chance(1, 10) ? r.range(0, 600) : (r.chance(1, 10) ? r.pick<int64_t>({127, 128, 255, 256, 257}) : r.range(0, 30))));
         op.set("max", r.pick<int64_t>({64, 100, 1500, 1500, 65559}));
         op.set("mode", static_cast<int64_t>(r.below(4)));
         if (r.chance(1, 3))
@@ -221,20 +224,21 @@ Plan genStatus(const std::string& prop, int tier, uint64_t batchSeed, uint64_t i
     Gen g(prop, tier, batchSeed, idx);
     Rng& r = g.rng;
     g.cfg().set("rx", 1).set("status", 1);
-    const size_t nDev = 2 + r.below(3);
+    const bool many = r.chance(1, 8);  // beyond the small alphabets: vector growth / reallocation inside the tracker
+    const size_t nDev = many ? 5 + r.below(12) : 2 + r.below(3);
     std::vector<int> devs;
     {
         std::set<int> s;
         while (s.size() < nDev)
-            s.insert(static_cast<int>(r.pick<int64_t>({1, 2, 3, 4, 0x43, 0xFF, 0x0100, 0xFFFF, 0})));
+            s.insert(many ? static_cast<int>(r.below(400)) : static_cast<int>(r.pick<int64_t>({1, 2, 3, 4, 0x43, 0xFF, 0x0100, 0xFFFF, 0})));
         devs.assign(s.begin(), s.end());
     }
     std::vector<int64_t> ifs;
     {
         std::set<int64_t> s;
-        size_t ni = r.below(4);
+        size_t ni = many ? 4 + r.below(10) : r.below(4);
         while (s.size() < ni)
-            s.insert(r.pick<int64_t>({0, 1, 2, 0x10, 0x20, 0xFFFFFFFF, 0x01000000}));
+            s.insert(many ? static_cast<int64_t>(r.below(64)) : r.pick<int64_t>({0, 1, 2, 0x10, 0x20, 0xFFFFFFFF, 0x01000000}));
         ifs.assign(s.begin(), s.end());
     }
     for (size_t i = 0; i < nDev; ++i)
@@ -243,7 +247,7 @@ Plan genStatus(const std::string& prop, int tier, uint64_t batchSeed, uint64_t i
     g.addNode(tecmpNode, 3, 0, 0);
     const bool forceReAdd = r.chance(1, 2);
     const bool enFault = r.chance(1, 2);
-    const size_t nOps = 4 + r.below(tier ? 80 : 40);
+    const size_t nOps = (many ? 30 : 4) + r.below(tier ? 80 : 40);
     int lastRemovedDev = -1;
     for (size_t o = 0; o < nOps; ++o)
     {
